@@ -73,6 +73,16 @@ type UpdaterCase struct {
 	// the context given to NewUpdater (it governs the initial lookup, nothing else) ends as soon as
 	// NewUpdater has returned - a start-up helper with a timeout and a deferred cancel
 	CtxEnds bool `json:"ctx_ends,omitempty"`
+	// OtherLast: the second declared secret (which has updaters of its own, ops "newo" / "geto") sorts
+	// after the watched one instead of before it
+	OtherLast bool `json:"other_last,omitempty"`
+}
+
+// an updater on the second declared secret
+type oupd struct {
+	u       *setec.Updater[string]
+	builds  int
+	pending bool
 }
 
 type upd struct {
@@ -95,9 +105,19 @@ func runC15(t *testing.T, c UpdaterCase) (*h.Violation, h.Info) {
 	var info h.Info
 	svc := fake.NewSvc()
 	svc.Set("w", 1, c15Value(1))
-	svc.Set("o", 1, valueOf("o", 1))
+	other := "o"
+	if c.OtherLast {
+		other = "z"
+	}
+	svc.Set(other, 1, valueOf(other, 1))
 	clock := fake.NewClock(1_700_000_000)
-	cfg := setec.StoreConfig{Client: svc, Secrets: []string{"w", "o"}, PollInterval: -1, Logf: nolog, TimeNow: clock.Now}
+	cfg := setec.StoreConfig{Client: svc, Secrets: []string{"w", other}, PollInterval: -1, Logf: nolog, TimeNow: clock.Now}
+	var oups []*oupd
+	otherChanged := func() {
+		for _, ou := range oups {
+			ou.pending = true
+		}
+	}
 	if len(c.FailWrite) > 0 {
 		cache := fake.NewCache(nil)
 		for _, k := range c.FailWrite {
@@ -211,8 +231,9 @@ func runC15(t *testing.T, c UpdaterCase) (*h.Violation, h.Info) {
 			}
 			svc.Set("w", activeVer, []byte(b))
 			if o.Both {
-				ov, _, _ := svc.Active("o")
-				svc.Set("o", ov+1, valueOf("o", ov+1))
+				ov, _, _ := svc.Active(other)
+				svc.Set(other, ov+1, valueOf(other, ov+1))
+				otherChanged()
 				info.Class("two-secrets-change-in-one-poll")
 			}
 			if err := refresh(); err != nil {
@@ -236,11 +257,37 @@ func runC15(t *testing.T, c UpdaterCase) (*h.Violation, h.Info) {
 				return h.V("harness", "Refresh: %v", err), info
 			}
 		case "other":
-			v, _, _ := svc.Active("o")
-			svc.Set("o", v+1, valueOf("o", v+1))
+			v, _, _ := svc.Active(other)
+			svc.Set(other, v+1, valueOf(other, v+1))
+			otherChanged()
 			if err := refresh(); err != nil {
 				return h.V("harness", "Refresh: %v", err), info
 			}
+		case "newo":
+			// an updater on the OTHER declared secret: the two secrets' updaters have nothing to do with each other
+			ou := &oupd{}
+			u, err := setec.NewUpdater(context.Background(), st, other, func(b []byte) (string, error) { ou.builds++; return string(b), nil })
+			if err != nil {
+				return h.V("harness", "step %d: NewUpdater(%q): %v", i, other, err), info
+			}
+			ou.u = u
+			oups = append(oups, ou)
+			info.Class("updaters-on-two-declared-secrets")
+		case "geto":
+			if len(oups) == 0 {
+				continue
+			}
+			ou := oups[o.U%len(oups)]
+			ov, _, _ := svc.Active(other)
+			b0 := ou.builds
+			got := ou.u.Get()
+			if got != string(valueOf(other, ov)) {
+				return h.V("get-returns-newest-installed", "step %d: the updater on the other declared secret %q returned a value built from %q, newest installed is %q", i, other, got, valueOf(other, ov)), info
+			}
+			if ou.pending && ou.builds != b0+1 || !ou.pending && ou.builds != b0 {
+				return h.V("rebuilt-only-after-an-install", "step %d: the updater on the other declared secret %q ran its builder %d times in one Get (an install of THAT secret since its previous Get: %v)", i, other, ou.builds-b0, ou.pending), info
+			}
+			ou.pending = false
 		case "new":
 			if v := mk(i, false); v != nil {
 				return v, info
@@ -373,18 +420,18 @@ func fromOf(c *cval) string {
 
 var c15 = &h.Campaign[UpdaterCase]{
 	Prop: "C15", Sub: "updater",
-	Rule:  "rapid: sequences (1-40) over one watched secret: install a new version (service change + Refresh; the builder may be told to reject that version), Get / Err on any updater, create another updater mid-history, a poll that installs nothing, a poll that updates an unrelated secret; values implement io.Closer with a close counter, the updater being Updater[*T] or, one case in three, Updater[<interface type>]; model per updater = pending-install flag + current value; non-trivial = >= 2 installs between two Gets of an updater, or a failed build followed by a successful one; distinct by sequence",
+	Rule:  "rapid: sequences (1-40) over one watched secret: install a new version (service change + Refresh; the builder may be told to reject that version), Get / Err on any updater, create another updater mid-history, a poll that installs nothing, a poll that updates an unrelated secret; values implement io.Closer with a close counter, the updater being Updater[*T] or, one case in three, Updater[<interface type>]; model per updater = pending-install flag + current value; updaters on the second declared secret as well (it sorts before or after the watched one), each judged against that secret's installs only; non-trivial = >= 2 installs between two Gets of an updater, or a failed build followed by a successful one; distinct by sequence",
 	Quick: 6000, Thorough: 2000000,
 	Gen: func(rt *rapid.T) UpdaterCase {
 		return UpdaterCase{Ops: rapid.SliceOfN(rapid.Custom(func(rt *rapid.T) UOp {
-			o := UOp{Kind: rapid.SampledFrom([]string{"install", "install", "install", "get", "get", "get", "new", "new-during-install", "new-beside-failing-new", "pollnop", "idle", "other", "err"}).Draw(rt, "kind"), U: rapid.IntRange(0, 3).Draw(rt, "u")}
+			o := UOp{Kind: rapid.SampledFrom([]string{"install", "install", "install", "get", "get", "get", "new", "new-during-install", "new-beside-failing-new", "pollnop", "idle", "other", "err", "newo", "geto"}).Draw(rt, "kind"), U: rapid.IntRange(0, 3).Draw(rt, "u")}
 			if o.Kind == "install" {
 				o.Fail = rapid.IntRange(0, 3).Draw(rt, "fail") == 0
 				o.Back = rapid.IntRange(0, 4).Draw(rt, "back") == 0
 				o.Both = rapid.IntRange(0, 3).Draw(rt, "both") == 0
 			}
 			return o
-		}), h.LenBias(rt, 1, 40), 40).Draw(rt, "ops"), FailWrite: rapid.SampledFrom([][]int{nil, nil, {2}, {2, 3}, {3, 5, 6}, {1, 2, 3, 4, 5, 6, 7, 8, 9}}).Draw(rt, "failwrite"), Iface: rapid.IntRange(0, 2).Draw(rt, "iface") == 0, CtxEnds: rapid.IntRange(0, 2).Draw(rt, "ctxends") == 0}
+		}), h.LenBias(rt, 1, 40), 40).Draw(rt, "ops"), FailWrite: rapid.SampledFrom([][]int{nil, nil, {2}, {2, 3}, {3, 5, 6}, {1, 2, 3, 4, 5, 6, 7, 8, 9}}).Draw(rt, "failwrite"), Iface: rapid.IntRange(0, 2).Draw(rt, "iface") == 0, CtxEnds: rapid.IntRange(0, 2).Draw(rt, "ctxends") == 0, OtherLast: rapid.Bool().Draw(rt, "otherlast")}
 	},
 	Run: runC15,
 }
